@@ -1,0 +1,215 @@
+//! Verification hooks (cargo feature `verif-hooks`).
+//!
+//! Add-only instrumentation used by an external model checker: the spawn loops of
+//! `core::runner` route their reads of the shared iterator's length, their `spawn` and `join`
+//! calls and the scope exit through the shims defined here, which report to an installed
+//! [`Hooks`] object before delegating to the real operation. While nothing is installed every
+//! shim is a plain pass-through, so behaviour is unchanged.
+
+#![allow(missing_docs)]
+
+use crate::par::par_empty::ParEmpty;
+use orx_concurrent_iter::{ConcurrentIter, ConcurrentIterX, HasMore};
+use std::sync::OnceLock;
+use std::thread::{Scope, ScopedJoinHandle};
+
+/// Callbacks of the instrumented runner. All methods have pass-through defaults.
+pub trait Hooks: Sync {
+    /// A runner was created (spawning thread): resolved settings.
+    fn run_begin(&self, _max_num_threads: usize, _chunk_size: usize, _exact: bool, _input_len: Option<usize>) {}
+    /// Immediately before the spawning thread reads the remaining length of the shared iterator.
+    fn before_len(&self) {}
+    /// The value just read.
+    fn after_len(&self, _len: Option<usize>) {}
+    /// Immediately before a worker is spawned; returns the logical id of the new worker.
+    fn before_spawn(&self) -> usize {
+        0
+    }
+    /// First action on the new worker thread.
+    fn worker_begin(&self, _id: usize) {}
+    /// Last action of the worker's task (also while unwinding).
+    fn worker_end(&self, _id: usize) {}
+    /// Immediately before the spawning thread joins worker `id`.
+    fn before_join(&self, _id: usize) {}
+    /// The spawning thread leaves the scope closure (also while unwinding).
+    fn leave_scope(&self) {}
+}
+
+static HOOKS: OnceLock<&'static dyn Hooks> = OnceLock::new();
+
+/// Installs the hooks object; the first call wins.
+pub fn install(hooks: &'static dyn Hooks) -> bool {
+    HOOKS.set(hooks).is_ok()
+}
+
+#[inline]
+fn hooks() -> Option<&'static dyn Hooks> {
+    HOOKS.get().copied()
+}
+
+pub(crate) fn run_begin(max_num_threads: usize, chunk_size: usize, exact: bool, input_len: Option<usize>) {
+    if let Some(h) = hooks() {
+        h.run_begin(max_num_threads, chunk_size, exact, input_len);
+    }
+}
+
+/// Creates the parallel computation over any concurrent iterator (the constructor itself is crate-private).
+pub fn par_from_con_iter<I: ConcurrentIter>(iter: I) -> ParEmpty<I> {
+    ParEmpty::new(iter)
+}
+
+// iterator shim: only the two reads used by the spawn loops
+
+pub struct IterShim<'a, I: ConcurrentIterX>(pub &'a I);
+
+impl<I: ConcurrentIterX> IterShim<'_, I> {
+    pub fn try_get_len(&self) -> Option<usize> {
+        match hooks() {
+            None => self.0.try_get_len(),
+            Some(h) => {
+                h.before_len();
+                let len = self.0.try_get_len();
+                h.after_len(len);
+                len
+            }
+        }
+    }
+
+    pub fn has_more(&self) -> HasMore {
+        match self.try_get_len() {
+            None => HasMore::Maybe,
+            Some(0) => HasMore::No,
+            Some(n) => HasMore::Yes(n),
+        }
+    }
+}
+
+impl<I: ConcurrentIterX> std::ops::Deref for IterShim<'_, I> {
+    type Target = I;
+    fn deref(&self) -> &I {
+        self.0
+    }
+}
+
+// scope shim
+
+pub struct ScopeShim<'scope, 'env: 'scope>(pub &'scope Scope<'scope, 'env>);
+
+pub struct JoinShim<'scope, T> {
+    handle: ScopedJoinHandle<'scope, T>,
+    id: usize,
+}
+
+struct EndGuard(usize);
+
+impl Drop for EndGuard {
+    fn drop(&mut self) {
+        if let Some(h) = hooks() {
+            h.worker_end(self.0);
+        }
+    }
+}
+
+impl<'scope, 'env> ScopeShim<'scope, 'env> {
+    pub fn spawn<F, T>(&self, f: F) -> JoinShim<'scope, T>
+    where
+        F: FnOnce() -> T + Send + 'scope,
+        T: Send + 'scope,
+    {
+        match hooks() {
+            None => JoinShim {
+                handle: self.0.spawn(f),
+                id: 0,
+            },
+            Some(h) => {
+                let id = h.before_spawn();
+                let handle = self.0.spawn(move || {
+                    h.worker_begin(id);
+                    let _guard = EndGuard(id);
+                    f()
+                });
+                JoinShim { handle, id }
+            }
+        }
+    }
+}
+
+impl<'scope, 'env> std::ops::Deref for ScopeShim<'scope, 'env> {
+    type Target = Scope<'scope, 'env>;
+    fn deref(&self) -> &Self::Target {
+        self.0
+    }
+}
+
+impl Drop for ScopeShim<'_, '_> {
+    fn drop(&mut self) {
+        if let Some(h) = hooks() {
+            h.leave_scope();
+        }
+    }
+}
+
+impl<T> JoinShim<'_, T> {
+    pub fn join(self) -> std::thread::Result<T> {
+        if let Some(h) = hooks() {
+            h.before_join(self.id);
+        }
+        self.handle.join()
+    }
+}
+
+/// Read-only access to the parameter-resolution functions, for exhaustive sweeps.
+pub mod internals {
+    use crate::core::verif_access as acc;
+    use crate::{ChunkSize, NumThreads, Params};
+    use orx_concurrent_iter::HasMore;
+
+    /// 0 = Collect, 1 = EarlyReturn, 2 = Reduce
+    pub fn calc_chunk_size(task: u8, input_len: Option<usize>, max_num_threads: usize, chunk_size: ChunkSize) -> (bool, usize) {
+        acc::calc_chunk_size(task, input_len, max_num_threads, chunk_size)
+    }
+
+    pub fn set_num_threads(input_len: Option<usize>, available: Option<usize>, num_threads: usize) -> usize {
+        acc::set_num_threads(input_len, available, num_threads)
+    }
+
+    pub fn auto_num_threads(input_len: Option<usize>, available: Option<usize>) -> usize {
+        acc::auto_num_threads(input_len, available)
+    }
+
+    pub fn calc_num_threads(input_len: Option<usize>, num_threads: NumThreads) -> usize {
+        acc::calc_num_threads(input_len, num_threads)
+    }
+
+    /// A runner as the spawn loops create it.
+    #[derive(Clone, Copy)]
+    pub struct RunnerProbe(pub(crate) acc::Runner);
+
+    impl RunnerProbe {
+        pub fn new(params: Params, task: u8, input_len: Option<usize>) -> Self {
+            Self(acc::new_runner(params, task, input_len))
+        }
+        pub fn max_num_threads(&self) -> usize {
+            acc::runner_settings(&self.0).0
+        }
+        /// (exact?, chunk size)
+        pub fn chunk_size(&self) -> (bool, usize) {
+            let s = acc::runner_settings(&self.0);
+            (s.1, s.2)
+        }
+        pub fn do_spawn(&self, num_spawned: usize, remaining: Option<usize>) -> bool {
+            self.0.do_spawn(num_spawned, has_more(remaining))
+        }
+        pub fn next_chunk_size(&self, num_spawned: usize, remaining: Option<usize>) -> Option<usize> {
+            self.0.next_chunk_size(num_spawned, has_more(remaining))
+        }
+    }
+
+    fn has_more(remaining: Option<usize>) -> HasMore {
+        match remaining {
+            None => HasMore::Maybe,
+            Some(0) => HasMore::No,
+            Some(n) => HasMore::Yes(n),
+        }
+    }
+}
